@@ -1849,9 +1849,9 @@ impl Server {
             _ => return Ok(RespFrame::error("ERR invalid key format")),
         };
         
-        let mut new_members = 0;
-        
-        // Process each score-member pair
+        // Validate every score-member pair before touching the dataset: a refused
+        // multi-member ZADD must add nothing
+        let mut pairs = Vec::with_capacity((parts.len() - 2) / 2);
         for i in (2..parts.len()).step_by(2) {
             let score = match &parts[i] {
                 RespFrame::BulkString(Some(bytes)) => {
@@ -1868,7 +1868,13 @@ impl Server {
                 _ => return Ok(RespFrame::error("ERR invalid member format")),
             };
             
-            // Add to sorted set 
+            pairs.push((score, member));
+        }
+        
+        let mut new_members = 0;
+        
+        // Add to sorted set
+        for (score, member) in pairs {
             if self.storage.zadd(db, key.clone(), member, score)? {
                 new_members += 1;
             }
